@@ -306,6 +306,8 @@ SUBS = [
         rule="each nested item (track, signal, platform, camera, channel, event, 2D packet, viewport) of generated blocks on its own"),
     Sub("after-edits", run_edits, strategy=edits_strategy, budget=(500, 15000), shards=(2, 16),
         rule="blocks with >= 2 items edited through the public interface (remove / add items): declared = written = consumed after every edit"),
+    Sub("long-tracks", run_block, strategy=specs.long_block_case, budget=(12, 300), shards=(6, 16),
+        rule="blocks with 1-2 tracks of 257 .. 131079 frames, boundary-aligned gaps, thousands of runs, all input dtypes: declared = written = consumed = reference size"),
     Sub("capture", run_capture, kind="enum", enumerate=enum_capture, shards=(1, 1),
         rule="the 8 blocks of the BTS-recorded capture vs. the sizes in its jump table (finite, enumerated)"),
     Sub("container", run_container, strategy=container_strategy, budget=(150, 4000), shards=(2, 16),
